@@ -15,7 +15,7 @@
 (*        64 RayThroughZeroTangentEnd (end of a cubic whose control point coincides with it),        *)
 (*        128 (boundary points only) the point itself is such a zero-tangent end,                    *)
 (*        256 (boundary points only) the point lies on a cubic (end point or dyadic point),          *)
-(*        512 (boundary points only) the point lies on a quadratic Bezier and is not a vertex         *)
+(*        512 (boundary points only) the point lies on a quadratic Bezier (end points included)      *)
 (* cf = per contour: 1 open, 2 the start point is the bottom-right-most vertex (the vertex CCW uses),  *)
 (*      4 it is the top-right-most vertex (bottom-right-most after a reflection in y)                 *)
 (* sf = per contour the feature bits of the ray from its start point with respect to the OTHER       *)
@@ -117,9 +117,8 @@ PData(p) == [vs |-> PathVerts(p), ls |-> PathLines(p), dr |-> [j \in 1..Len(p) |
              circ |-> UNION {{<<p[j].segs[i].c1, p[j].segs[i].c2[1]>> : i \in {k \in 1..Len(p[j].segs) : p[j].segs[k].k = "A" /\ p[j].segs[k].c2[1] = p[j].segs[k].c2[2]}} : j \in 1..Len(p)}]
 \* s is a (dyadic) point of a cubic segment
 OnCubic(p, s) == \E j \in 1..Len(p) : \E i \in 1..Len(p[j].segs) : p[j].segs[i].k = "C" /\ CubWB(SegStart(p[j], i), p[j].segs[i], s)[2] = 1
-\* s is a point of a quadratic segment other than a vertex of the path
-OnQuad(p, s) == /\ s \notin PathVerts(p)
-                /\ \E j \in 1..Len(p) : \E i \in 1..Len(p[j].segs) : p[j].segs[i].k = "Q" /\ QuadWB(SegStart(p[j], i), p[j].segs[i], s)[2] = 1
+\* s is a point of a quadratic segment (end points included)
+OnQuad(p, s) == \E j \in 1..Len(p) : \E i \in 1..Len(p[j].segs) : p[j].segs[i].k = "Q" /\ QuadWB(SegStart(p[j], i), p[j].segs[i], s)[2] = 1
 \* features of the ray from s in the lattice direction d (vertex / straight-edge based only)
 AheadD(s, d, v) == Cross(s, PAdd(s, d), v) = 0 /\ (d[1] * (v[1] - s[1]) + d[2] * (v[2] - s[2])) > 0
 FeatDir(pd, s, d) ==
